@@ -217,6 +217,48 @@ def msForward {d n : Nat} (ls : List (MSLevel K d n)) (stop : Option (Vec K n)) 
   | none => out
   | some s => Vector.ofFn fun i => out[i] * s[i]
 
+/-! ### the design the level bookkeeping must realise: exact windows on nested supports
+
+All levels sample one focal plane `Fin d`; level `i` sees only the samples of its support `S_i`
+(its propagators are the restrictions of one pair `F`, `B`), samples the same mask `m`, and
+resampling a coarser mask to it is exact (the identity on the common plane). -/
+
+/-- `F` restricted to the support: rows outside are zero. -/
+def restrictRows {d n : Nat} (F : Vector (Vec K n) d) (S : Vector Bool d) : Vector (Vec K n) d :=
+  Vector.ofFn fun p => if S[p] then F[p] else zeroVec K n
+
+/-- `B` restricted to the support: columns outside are zero. -/
+def restrictCols {d n : Nat} (B : Vector (Vec K d) n) (S : Vector Bool d) : Vector (Vec K d) n :=
+  Vector.ofFn fun i => Vector.ofFn fun p => if S[p] then B[i][p] else 0
+
+def idMat (K : Type) [OfNat K 0] [OfNat K 1] (d : Nat) : Vector (Vec K d) d :=
+  Vector.ofFn fun p => Vector.ofFn fun q => if p = q then 1 else 0
+
+/-- Level number `i` of the exact design: support `S`, window `w`. -/
+def exactLevel {d n : Nat} (m : Vec K d) (F : Vector (Vec K n) d) (B : Vector (Vec K d) n)
+    (i : Nat) (sp : Vector Bool d × Vec K d) : MSLevel K d n :=
+  { raw := m, win := sp.2, R := List.replicate i (idMat K d), F := restrictRows F sp.1, B := restrictCols B sp.1 }
+
+def exactLevelsFrom {d n : Nat} (m : Vec K d) (F : Vector (Vec K n) d) (B : Vector (Vec K d) n) :
+    Nat → List (Vector Bool d × Vec K d) → List (MSLevel K d n)
+  | _, [] => []
+  | i, sp :: sps => exactLevel m F B i sp :: exactLevelsFrom m F B (i + 1) sps
+
+def exactLevels {d n : Nat} (m : Vec K d) (F : Vector (Vec K n) d) (B : Vector (Vec K d) n)
+    (sps : List (Vector Bool d × Vec K d)) : List (MSLevel K d n) := exactLevelsFrom m F B 0 sps
+
+/-- The single-level reference: `B (m · F E)`. -/
+def idealForward {d n : Nat} (m : Vec K d) (F : Vector (Vec K n) d) (B : Vector (Vec K d) n) (E : Vec K n) : Vec K n :=
+  let foc := matVec F E
+  matVec B (Vector.ofFn fun p => foc[p] * m[p])
+
+/-- Decidable side conditions of the telescoping theorem: `u` (the window of the previous level,
+all ones before level 0) and the level's own window vanish outside the level's support. -/
+def nestedOK [BEq K] {d : Nat} : Vec K d → List (Vector Bool d × Vec K d) → Bool
+  | _, [] => true
+  | u, sp :: sps =>
+    (List.finRange d).all (fun p => sp.1[p] || (u[p] == 0 && sp.2[p] == 0)) && nestedOK sp.2 sps
+
 /-- A monochromatic wavefront: field and wavelength. -/
 structure Wf (K : Type) (n : Nat) where
   E : Vec K n
